@@ -6,6 +6,8 @@ cd /verif
 mkdir -p .build evidence replays
 export CARGO_NET_OFFLINE=true
 python3 translator/extract.py lean/TgModel/Generated/Tables.lean .build/tables.json
+python3 translator/extract_grammar.py .build/tables.json lean/TgModel/Generated/DocGrammar.lean .build/docgrammar.json
+python3 translator/extract_ast.py lean/TgModel/Generated/AstTable.lean harness/src/ast_walk_gen.rs .build/asttable.json
 (cd harness && cargo build --release --features verif --offline 2>&1 | tail -3)
 (cd /repo && CARGO_TARGET_DIR=/verif/.build/cargo-repo cargo build --release -p lsp --offline 2>&1 | tail -1)
 (cd lean && lake build TgModel tgdrive 2>&1 | tail -3)
